@@ -10,7 +10,7 @@ Stand-alone Treg:    `treg stability (sev:cond)*`, `evaluate level action clean 
 Stand-alone thymus:  `tcfg min tol varThr`, `sample <fp>`, `ttrain sdLen sdTime sdConf` (installs a default T cell).
 Pipeline:            `sys minTrain tol varThr stability cap (sev:cond)*`, `reg a`, `show a <fp>|none`, `train a`,
   `pinspect a`, `pflag a b`, `preset a`, `presetfa a`, `unrec a`, `updated a`, `expire` (two hours pass),
-  `pruneold hours`, `pset a rep|anergy k`, `pset a profile <profile>`, `gset stability (sev:cond)*`, `mset capacity`, `import (agent:vocab:struct:level:action:ageHours)*`, `reimport` (export, then import), `roundtrip` (export, `prune_old(0)`, import).
+  `pruneold hours`, `pset a rep|anergy k`, `pset a profile <profile>`, `gset stability (sev:cond)*`, `mset capacity`, `sset tol varThr` (`thymus.tolerance` / `thymus.variance_threshold` assigned), `import (agent:vocab:struct:level:action:ageHours)*`, `reimport` (export, then import), `roundtrip` (export, `prune_old(0)`, import).
 Read-only accessors (pure reads; the line shows what was read and a digest of the whole state afterwards):
   `peek health|cell|stats|export|repr|agents`, `tpeek` (stand-alone T cell).  Direct assignment to the public list
   `memory.signatures`: `mforget clear|assign|pop0|dellast|slice`, `mforget agent a`.
@@ -324,6 +324,7 @@ def step (st : DSt) (toks : List String) : DSt × String :=
       ⟨ratOf a, ratOf b, ratOf c, ratOf d, ratOf e, ratOf f, ratOf em, natList vs, natList ss, ratOf cm⟩) }, "ok")
   | "gset" :: stab :: rules => ({ st with sys := st.sys.setTreg ⟨rules.map ruleOf, intD stab⟩ }, "ok")
   | ["mset", c] => ({ st with sys := st.sys.setCap (intD c) }, "ok")
+  | ["sset", tol, vt] => ({ st with sys := st.sys.setThymus (ratOf tol) (ratOf vt) }, "ok ## e:sset")
   | ["updated", a] => ({ st with sys := st.sys.markUpdated (natD a) }, "ok")
   | ["expire"] => ({ st with sys := st.sys.expire }, "ok")
   | ["pruneold", h] =>
